@@ -81,10 +81,11 @@ fn main() {
 
 struct Cx<'tcx> {
     tcx: TyCtxt<'tcx>,
+    in_promoted: std::cell::Cell<bool>,
 }
 
 fn dump_crate<'tcx>(tcx: TyCtxt<'tcx>, name: &str, kind: &str) -> J {
-    let cx = Cx { tcx };
+    let cx = Cx { tcx, in_promoted: std::cell::Cell::new(false) };
     let mut bodies = Vec::new();
     for &ldid in tcx.mir_keys(()).iter() {
         let did = ldid.to_def_id();
@@ -395,6 +396,12 @@ impl<'tcx> Cx<'tcx> {
                 }
             }
         }
+        if let Const::Unevaluated(uv, _) = c {
+            if let Some(p) = uv.promoted {
+                v.push(("promoted", J::Int(p.as_usize() as i128)));
+                v.push(("promoted_in", J::s(tcx.def_path_str(uv.def))));
+            }
+        }
         v.push(("s", J::s(format!("{}", c))));
         J::Obj(v)
     }
@@ -580,6 +587,29 @@ impl<'tcx> Cx<'tcx> {
             }
         }
         v.push(("vars", J::Arr(dbg)));
+        // promoted constants of this body: the assignments of their (straight-line) bodies
+        if matches!(tcx.def_kind(did), DefKind::Fn | DefKind::AssocFn | DefKind::Closure) && !self.in_promoted.get() {
+            self.in_promoted.set(true);
+            let proms = tcx.promoted_mir(did);
+            let mut pv = Vec::new();
+            for (_pi, pb) in proms.iter_enumerated() {
+                let mut stmts = Vec::new();
+                for (_bb, data) in pb.basic_blocks.iter_enumerated() {
+                    for st in data.statements.iter() {
+                        if let StatementKind::Assign(b) = &st.kind {
+                            let (pl, rv) = &**b;
+                            stmts.push(J::Obj(vec![
+                                ("dst", self.place(pb, *pl)),
+                                ("rv", self.rvalue(did, pb, rv)),
+                            ]));
+                        }
+                    }
+                }
+                pv.push(J::Arr(stmts));
+            }
+            v.push(("promoted", J::Arr(pv)));
+            self.in_promoted.set(false);
+        }
         // blocks
         let mut blocks = Vec::new();
         for (_bb, data) in body.basic_blocks.iter_enumerated() {
